@@ -110,7 +110,8 @@ def run_case(kind, idx, rng, sh):
         nent = rng.choice([0, 1, 1, 2, 3, 5, 8, 30])
         pool = rng.sample(range(1, 0x10000), 300)
         if rng.random() < 0.3:
-            pool = [x | 0x8000 for x in pool]
+            pool = sorted({x | 0x8000 for x in pool})       # hidden bit set; keep the indices unique
+            rng.shuffle(pool)
         allzero = kind == 'verneed' and rng.random() < 0.15
         for i in range(nent):
             naux = rng.choice([1, 1, 2, 3, 8])
